@@ -104,6 +104,7 @@ class Engine:
         self.round_axioms = []
         self.list_repeat_hook = None
         self.default_replay = None
+        self.inv_props = None
         self.async_faults = []      # e.g. ["KeyboardInterrupt"]: injected before every statement outside `finally`
         self.globals_obj = None     # Ref of the heap object holding the mutable module globals of the function's module
 
@@ -113,10 +114,15 @@ class Engine:
             goal = z3.BoolVal(True)
         if goal is False:
             goal = z3.BoolVal(False)
-        if self.default_replay and not meta.get("replay"):
-            meta["replay"] = self.default_replay
-        self.obligations.append(Obligation(f"{self.label}/{name}#{len(self.obligations)}", st.pc + self.round_axioms,
-                                           goal, prop or self.prop, meta))
+        props = [prop or self.prop]
+        if meta.get("kind") == "invariant" and prop is None and self.inv_props:
+            props = list(self.inv_props)       # an invariant that carries clauses of several properties is checked under each
+        for pr in props:
+            if self.default_replay and not meta.get("replay"):
+                dr = self.default_replay.get(pr) if isinstance(self.default_replay, dict) else self.default_replay
+                if dr:
+                    meta = dict(meta, replay=dr)
+            self.obligations.append(Obligation(f"{self.label}/{name}#{len(self.obligations)}", st.pc + self.round_axioms, goal, pr, dict(meta)))
 
     def qoblige(self, name, st, goals, **meta):
         """prove forall-goals: skolemise each at a fresh constant, instantiate the assumed forall-facts of the path there"""
